@@ -2,7 +2,7 @@ from diag_common import *
 
 META = {
     "category": "proof",
-    "text": 'One theorem per sentence of the statement about a Gallina transcription of run_check / add_diagnostic / is_checker_enable_by_code / get_severity / diagnose_file and of the undefined-global filter, for ALL configurations, files and checker bodies (a checker is its CODES plus an arbitrary list of add_diagnostic calls). The code tables, the checkers\' CODES and the ORDER of the tests of the enable chain are regenerated from the Rust source into coq/theories/Gen/C20_Diag.v on every run, so the theorems are re-proved against today\'s tables. The model is tied to the code by running the whole switch lattice (file enable x workspace disable x meta x file disable x workspace enables x enable x severity x placement, for 16 trigger programs) through the real diagnose_file and comparing with the model, and the sentences are searched directly on the implementation with random configurations.',
+    "text": 'One theorem per sentence of the statement about a Gallina transcription of run_check / add_diagnostic / is_checker_enable_by_code / get_severity / diagnose_file and of the undefined-global filter, for ALL configurations, files and checker bodies (a checker is its CODES plus an arbitrary list of add_diagnostic calls). The code tables, the checkers\' CODES and the ORDER of the tests of the enable chain are regenerated from the Rust source into coq/theories/Gen/C20_Diag.v on every run, so the theorems are re-proved against today\'s tables. The model is tied to the code by running the whole switch lattice (file enable x workspace disable x meta tag in six spellings x file disable x workspace enables x enable x severity x placement, for 16 trigger programs) through the real diagnose_file and comparing with the model, and the sentences are searched directly on the implementation with random configurations.',
     "note": 'Trusted: Coq kernel; the translator (shape-anchored, name table validated against the implementation); the hand model of the gates (validated by the exhaustive lattice correspondence, not proved equal to the Rust); what checkers emit is universally quantified, not modelled. Range suppression (C19) is an abstract predicate. Axioms: none.',
     "technique": "Coq proof over tables regenerated from source + exhaustive-lattice model-vs-implementation correspondence + oracle search",
 }
@@ -10,7 +10,7 @@ META = {
 THEOREMS = [("disabled_never_unless_file_enabled", "theorem"), ("enables_reported", "theorem"), ("emits_within_codes", "table"),
             ("severity_override", "theorem"), ("severity_configured", "theorem"), ("globals_never_undefined", "theorem"),
             ("globals_match_listed", "theorem"), ("globals_match_regex", "theorem"), ("only_ug_checker_emits_ug", "table"),
-            ("library_std_silent", "theorem"), ("meta_silent", "theorem"), ("enable_false_silent", "theorem"),
+            ("library_std_silent", "theorem"), ("meta_silent", "theorem"), ("meta_tag_sets_flag", "theorem"), ("meta_tag_silent", "theorem"), ("enable_false_silent", "theorem"),
             ("chain_formula", "theorem"), ("config_example", "example"), ("some_code_off_by_default", "example")]
 
 TRUSTED = TRUSTED_COMMON + [
@@ -46,11 +46,19 @@ def lattice_term(t, r):
         return None
     if code is None:
         return None
-    # LuaModuleIndex::set_meta only marks files the module index knows: a file outside every workspace root is never meta
-    meta = r["meta"] and r["placement"] != "none"
-    return ('{| c_code := %s; c_checker := "%s"; c_fe := %s; c_wd := %s; c_meta := %s; c_fd := %s; c_we := %s; c_enable := %s; '
+    # (LuaModuleIndex::set_meta only marks files the module index knows: the model derives the flag from the tag and from
+    #  whether the file lies under a workspace root, and the real is_meta_file answer is compared with it)
+    if r["meta"] is None:
+        tag = "NoMetaTag"
+    elif r["meta"] == "":
+        tag = "BareMeta"
+    else:
+        tag = '(NamedMeta "%s")' % r["meta"]
+    if not isinstance(r.get("is_meta"), bool):
+        return None
+    return ('{| c_code := %s; c_checker := "%s"; c_fe := %s; c_wd := %s; c_tag := %s; c_is_meta := %s; c_fd := %s; c_we := %s; c_enable := %s; '
             'c_sev := %s; c_level := L_%s; c_ws := %s; c_obs := %s |}') % (
-        code, r["checker"], b(r["fe"]), b(r["wd"]), b(meta), b(r["fd"]), b(r["we"]), b(r["enable"]),
+        code, r["checker"], b(r["fe"]), b(r["wd"]), tag, b(r["is_meta"]), b(r["fd"]), b(r["we"]), b(r["enable"]),
         "None" if r["sev"] is None else "(Some %s)" % SEV[r["sev"]], r["level"], WS[r["placement"]], obs)
 
 
@@ -77,20 +85,20 @@ def correspondence(ck, binpath, t, n):
     glo = [r for r in rows if r["kind"] == "globals"]
     # the triggers must trigger: forced on by `enables` in a plain main-workspace file
     for r in lat:
-        if r["we"] and not (r["fe"] or r["wd"] or r["meta"] or r["fd"]) and r["enable"] and r["sev"] is None and r["placement"] == "main":
+        if r["we"] and not (r["fe"] or r["wd"] or r["meta"] is not None or r["fd"]) and r["enable"] and r["sev"] is None and r["placement"] == "main":
             if not isinstance(r["obs"], dict):
                 ck.tie_broken("trigger program for %s (%s) no longer produces the diagnostic even when forced on" % (r["code"], r["checker"]), json.dumps(r))
     # a trigger whose emission itself depends on the `---@meta` tag (e.g. duplicate-type: declarations of a meta file may be
     # repeated) says nothing about the chain in the one placement where the tag does not make the file a meta file
     robust = set()
     for r in lat:
-        if r["we"] and r["meta"] and not (r["fe"] or r["wd"] or r["fd"]) and r["enable"] and r["sev"] is None and r["placement"] == "none" \
+        if r["we"] and r["meta"] is not None and not (r["fe"] or r["wd"] or r["fd"]) and r["enable"] and r["sev"] is None and r["placement"] == "none" \
                 and isinstance(r["obs"], dict):
-            robust.add((r["code"], r["checker"], r["level"]))
+            robust.add((r["code"], r["checker"], r["level"], r["meta"]))
     skipped = 0
     terms, keep = [], []
     for r in lat:
-        if r["meta"] and r["placement"] == "none" and (r["code"], r["checker"], r["level"]) not in robust:
+        if r["meta"] is not None and r["placement"] == "none" and (r["code"], r["checker"], r["level"], r["meta"]) not in robust:
             skipped += 1
             continue
         term = lattice_term(t, r)
@@ -102,13 +110,13 @@ def correspondence(ck, binpath, t, n):
     failing = ck.coq_failing("corr_lattice", terms, REQ, check_fn="check_case", case_type="case", per_shard=300, prelude=PRELUDE)
     for i in failing or []:
         r = keep[i]
-        ck.tie_broken("model/implementation disagreement on the enable chain: code %s (%s) fe=%s wd=%s meta=%s fd=%s we=%s enable=%s sev=%s placement=%s observed %s"
+        ck.tie_broken("model/implementation disagreement on the enable chain / meta flag: code %s (%s) fe=%s wd=%s meta-tag=%r fd=%s we=%s enable=%s sev=%s placement=%s observed %s"
                       % (r["code"], r["checker"], r["fe"], r["wd"], r["meta"], r["fd"], r["we"], r["enable"], r["sev"], r["placement"], json.dumps(r["obs"])),
                       json.dumps(r))
     for r in keep:
         key = dict(r)
         key.pop("obs")
-        ck.count_case(("lattice", json.dumps(key, sort_keys=True)), nontrivial=(r["fe"] or r["wd"] or r["meta"] or r["fd"] or r["we"] or r["sev"] is not None))
+        ck.count_case(("lattice", json.dumps(key, sort_keys=True)), nontrivial=(r["fe"] or r["wd"] or r["meta"] is not None or r["fd"] or r["we"] or r["sev"] is not None))
     gterms, gkeep = [], []
     for r in glo:
         term = globals_term(r)
@@ -132,8 +140,8 @@ def correspondence(ck, binpath, t, n):
             ck.sample({"kind": "lattice case (disabled in the workspace, enabled by the file)", **r})
             break
     for r in keep:
-        if r["meta"] and r["fe"] and r["placement"] == "main" and r["enable"]:
-            ck.sample({"kind": "lattice case (meta file that force-enables the code)", **r})
+        if r["meta"] == "socket.io" and r["fe"] and r["placement"] == "main" and r["enable"]:
+            ck.sample({"kind": "lattice case (named meta file that force-enables the code)", **r})
             break
     if gkeep:
         ck.sample({"kind": "globals case", **gkeep[min(3, len(gkeep) - 1)]})
@@ -190,6 +198,7 @@ def main(argv):
     ck.finish(
         trusted_base=TRUSTED,
         rule="correspondence: every point of {file enable, workspace disable, meta, file disable, workspace enables, diagnostics.enable, severity override} "
+             "(the meta tag in all its spellings: none, bare, `_`, `no-require`, a module name, a dotted module name; the real is_meta_file answer is compared too) "
              "x placement {main, library, std, outside every workspace} for 16 trigger programs (one per code/checker pair, incl. default-off codes, a "
              "level-dependent code at two language levels, multi-code checkers), plus random globals/globalsRegex lists over a pool of names; "
              "search: random configurations (subsets of codes in disable/enables incl. all/none, severity maps, globals and valid/invalid regexes, three "
